@@ -110,7 +110,7 @@ package atree
 //@   ensures[C13] i.nextIndex <= i.lastIndex
 //@   ensures[C18] old(i.nextIndex) != old(i.lastIndex) && old(i.nextIndex) >= old(acount(i.array)) ==> err != nil && isUser(err)
 //@   ensures[C18] err != nil ==> v == nil && categorised(err)
-//@   modifies i.nextIndex, Array.mutableElementIndex@(recv == i.array), Array.parentUpdater, OrderedMap.parentUpdater, alloc
+//@   modifies i.nextIndex, i.array.mutableElementIndex, Array.parentUpdater, OrderedMap.parentUpdater, alloc
 
 //@ iface mutableValueNotifier.setParentUpdater(f)
 //@   modifies Array.parentUpdater, OrderedMap.parentUpdater
